@@ -10,7 +10,7 @@ Line protocol for C12.
 `<bytes>`: lowercase hex, `-` empty, or `z<len>x<seed>` (pattern bytes `seed + 31*i`).
 Observations:
   tcp: ret <b> toB <hex> toA <hex> wfB <b> wfA <b> bad <b> cwB <b> cwA <b> cl <b> sent <n> recv <n> serr <e> rerr <e>
-  udp: ret <b> tun <hex> udp <k> <hex>*k nread <n> serr <b> rerr <b> sent <n> recv <n>
+  udp: ret <b> tun <hex> udp <k> <hex>*k nread <n> wfu <b> serr <b> rerr <b> sent <n> recv <n>
   anything else (timeout, panic …) is an unparsed observation.
 -/
 namespace Tunnox.Drv.C12
@@ -52,7 +52,8 @@ def parseBytesN : Nat → List String → Option (List Bytes × List String)
   | _, _ => none
 
 def kindOf : String → Option Kind
-  | "cw" => some .cw | "same" => some .same | "split" => some .split | "none" => some .none | _ => none
+  | "cw" => some .cw | "same" => some .same | "split" => some .split | "none" => some .none
+  | "prod" => some .prod | "wcw" => some .wcw | _ => none
 
 def parseEPk (kind : Kind) : List String → Option (EP × List String)
   | tl :: fu :: wf :: cot :: k :: ts => do
@@ -90,8 +91,8 @@ structure TcpCase where
   b : EP
   sched : List TTok
 
-def parseTcp : List String → Option TcpCase
-  | "tcp" :: "A" :: ts => do
+def parseTcpBody : List String → Option TcpCase
+  | "A" :: ts => do
     let (a, ts) ← parseEP ts
     match ts with
     | "B" :: ts => do
@@ -102,6 +103,13 @@ def parseTcp : List String → Option TcpCase
         pure ⟨a, b, σ⟩
       | _ => none
     | _ => none
+  | _ => none
+
+/-- `tcp …`: the relay is called directly; `tcpt …`: it is run by a real `tunnel.Tunnel` (`Start` → `runDataCopy` →
+`Close`), the observation additionally carries the close reason, the tunnel's byte statistics and how often `OnClosed` ran. -/
+def parseTcp : List String → Option TcpCase
+  | "tcp" :: ts => parseTcpBody ts
+  | "tcpt" :: ts => parseTcpBody ts
   | _ => none
 
 def tcpObsStr (o : TcpObs) : String :=
@@ -129,8 +137,9 @@ structure UdpLine where
   spec : UdpSpecCase
   sizes : List Nat
   sched : List UTok
+  uwfail : Option Nat := none
 
-def parseUdpBody : List String → Option UdpLine
+def parseUdpBody0 : List String → Option UdpLine
   | "U" :: ut :: k :: ts => do
     let utail ← tlOf ut
     let k ← k.toNat?
@@ -151,10 +160,21 @@ def parseUdpBody : List String → Option UdpLine
         match ts with
         | ["s", s] => do
           let σ ← udpSched s
-          pure ⟨⟨uevs, utail, tds, cut, junk, ttail, fused⟩, sz, σ⟩
+          pure ⟨⟨uevs, utail, tds, cut, junk, ttail, fused⟩, sz, σ, none⟩
         | _ => none
       | _ => none
     | _ => none
+  | _ => none
+
+/-- `U <tail> [wf<n>] <k> …`: `wf<n>` = the UDP socket refuses its Write number n. -/
+def parseUdpBody : List String → Option UdpLine
+  | "U" :: ut :: w :: ts =>
+    match w.toList with
+    | 'w' :: 'f' :: rest =>
+      match (String.ofList rest).toNat? with
+      | some n => (parseUdpBody0 ("U" :: ut :: ts)).map (fun l => { l with uwfail := some n })
+      | none => none
+    | _ => parseUdpBody0 ("U" :: ut :: w :: ts)
   | _ => none
 
 /-- `udp …`: scripted doubles on both sides; `udpv …`: the local side is the real asynchronous
@@ -162,15 +182,16 @@ def parseUdpBody : List String → Option UdpLine
 def parseUdp : List String → Option UdpLine
   | "udp" :: ts => parseUdpBody ts
   | "udpv" :: ts => parseUdpBody ts
+  | "udpr" :: ts => parseUdpBody ts
   | _ => none
 
 def UdpLine.case (l : UdpLine) : UdpCase :=
-  ⟨l.spec.uevs, l.spec.utail, chunkBy l.sizes l.spec.stream, l.spec.ttail, l.spec.tfused⟩
+  ⟨l.spec.uevs, l.spec.utail, chunkBy l.sizes l.spec.stream, l.spec.ttail, l.spec.tfused, l.uwfail⟩
 
 def udpObsStr (o : UdpObs) : String :=
   if !o.ret then "timeout" else
   let pk := o.udp.foldl (fun acc p => acc ++ " " ++ hexOfBytes p) ""
-  s!"ret 1 tun {hexOfBytes o.tun} udp {o.udp.length}{pk} nread {o.nread} serr {bit o.serr} rerr {bit o.rerr} sent {o.sent} recv {o.recv}"
+  s!"ret 1 tun {hexOfBytes o.tun} udp {o.udp.length}{pk} nread {o.nread} wfu {bit o.wfU} serr {bit o.serr} rerr {bit o.rerr} sent {o.sent} recv {o.recv}"
 
 def parseUdpObs : List String → Option UdpObs
   | "ret" :: r :: "tun" :: tn :: "udp" :: k :: ts => do
@@ -178,8 +199,8 @@ def parseUdpObs : List String → Option UdpObs
     let (pk, ts) ← takeN k ts
     let pk ← pk.mapM bytesOfHex
     match ts with
-    | ["nread", nr, "serr", se, "rerr", re, "sent", sn, "recv", rc] =>
-      pure { ret := ← bitOf r, tun := ← bytesOfHex tn, udp := pk, nread := ← nr.toNat?, serr := ← bitOf se,
+    | ["nread", nr, "wfu", wu, "serr", se, "rerr", re, "sent", sn, "recv", rc] =>
+      pure { ret := ← bitOf r, tun := ← bytesOfHex tn, udp := pk, nread := ← nr.toNat?, wfU := ← bitOf wu, serr := ← bitOf se,
              rerr := ← bitOf re, sent := ← sn.toNat?, recv := ← rc.toNat? }
     | _ => none
   | _ => none
@@ -237,15 +258,26 @@ def runModel (ts : List String) : String :=
   match ts with
   | "tcp" :: _ =>
     match parseTcp ts with
-    | some c => tcpObsStr (tcpObs c.a c.b (tcpRun c.a c.b (tcpComplete c.a c.b c.sched)))
+    | some c => tcpObsStr (tcpObs c.a c.b (tcpRunFast c.a c.b c.sched))
+    | none => "bad-case"
+  | "tcpt" :: _ =>
+    match parseTcp ts with
+    | some c =>
+      let o := tcpObs c.a c.b (tcpRunFast c.a c.b c.sched)
+      if !o.ret then "timeout" else
+      tcpObsStr o ++ s!" reason {tunnelReason o.serr o.rerr} st {o.sent} {o.recv} closed 1"
     | none => "bad-case"
   | "udp" :: _ =>
     match parseUdp ts with
-    | some l => udpObsStr (udpObs (udpRun .repaired l.case (udpComplete l.case l.sched)))
+    | some l => udpObsStr (udpObs (udpRunFast .repaired l.case l.sched))
+    | none => "bad-case"
+  | "udpr" :: _ =>
+    match parseUdp ts with
+    | some l => udpObsStr (udpObs (udpRunFast .repaired l.case l.sched))
     | none => "bad-case"
   | "udpv" :: _ =>
     match parseUdp ts with
-    | some l => udpObsStr (udpObsV (udpRun .repaired l.case (udpComplete l.case l.sched)))
+    | some l => udpObsStr (udpObsV (udpRunFast .repaired l.case l.sched))
     | none => "bad-case"
   | "s5" :: _ =>
     match parseS5Line ts with
@@ -265,7 +297,22 @@ def runHolds (caseToks obsToks : List String) : String :=
       | some o => boolStr (holdsTcp c.a c.b o)
       | none => "false"
     | none => "bad-case"
+  | "tcpt" :: _ =>
+    match parseTcp caseToks with
+    | some c =>
+      -- the relay part of the observation must satisfy the property; the tunnel must have closed exactly once
+      match parseTcpObs (obsToks.take 26), obsToks.drop 26 with
+      | some o, ["reason", _, "st", _, _, "closed", n] => boolStr (holdsTcp c.a c.b o && n == "1")
+      | _, _ => "false"
+    | none => "bad-case"
   | "udp" :: _ =>
+    match parseUdp caseToks with
+    | some l =>
+      match parseUdpObs obsToks with
+      | some o => boolStr (holdsUdp l.spec o)
+      | none => "false"
+    | none => "bad-case"
+  | "udpr" :: _ =>
     match parseUdp caseToks with
     | some l =>
       match parseUdpObs obsToks with
